@@ -34,10 +34,21 @@ func (s SchedSpec) Policy() engine.Policy {
 // runSim runs clients in world w under policy. When trace is non-nil it is
 // enforced (replay) instead of the policy.
 func runSim(w *world.World, clients []*engine.Client, pol engine.Policy, serial bool, trace []engine.Step, hook func(*engine.Sim, engine.Step)) (*engine.Sim, error) {
+	return runSimH(w, clients, pol, serial, trace, simHooks{OnStep: hook})
+}
+
+type simHooks struct {
+	OnStep        func(*engine.Sim, engine.Step)
+	OnPark        func(*engine.Sim, *engine.Proc, *engine.Msg)
+	BeforeRelease func(*engine.Sim, *engine.Proc, *engine.Msg)
+}
+
+func runSimH(w *world.World, clients []*engine.Client, pol engine.Policy, serial bool, trace []engine.Step, h simHooks) (*engine.Sim, error) {
 	if trace != nil {
 		pol = &engine.Replay{Steps: trace}
 	}
-	s := &engine.Sim{GarbleBin: w.Garble, Clients: clients, Policy: pol, Serial: serial, RunDir: w.Root, Timeout: 8 * time.Minute, OnStep: hook}
+	s := &engine.Sim{GarbleBin: w.Garble, Clients: clients, Policy: pol, Serial: serial, RunDir: w.Root, Timeout: 8 * time.Minute,
+		OnStep: h.OnStep, OnPark: h.OnPark, BeforeRelease: h.BeforeRelease}
 	if err := s.Run(); err != nil {
 		return s, err
 	}
